@@ -1710,3 +1710,29 @@ func ruleNoBlockingChanUnderLock(c *Ctx, r *Reporter) {
 		r.OK("channel-sends:none", "", "nothing to require")
 	}
 }
+
+// ruleReadOnlyOnlyRaised: the replication manager only ever RAISES the engine's read-only flag (setEngineReadOnly(true)); the
+// only code that lowers it is the applier's bracket, which restores it at once. Stopping replication must not make a replica
+// writable while its service is still up.
+func ruleReadOnlyOnlyRaised(c *Ctx, r *Reporter) {
+	r.Rule("read-only-flag-only-raised", 1)
+	set := c.Func("pkg/replication", "Manager", "setEngineReadOnly")
+	if set == nil {
+		r.Unresolved("replication.Manager.setEngineReadOnly", "not found")
+		return
+	}
+	n := 0
+	for _, e := range c.Callers(set) {
+		if !c.InKevo(e.Caller.Func) || e.Site == nil {
+			continue
+		}
+		n++
+		args := e.Site.Common().Args
+		b, isK := constBool(args[len(args)-1])
+		r.Check(isK && b, "replication.Manager.setEngineReadOnly<-"+FnName(topParent(e.Caller.Func)), c.InsPos(e.Site), "called with the constant true",
+			"the replication manager can LOWER the engine's read-only flag (argument "+Path(args[len(args)-1])+"): after that call a node that still answers as a replica accepts client writes, and node info reports read_only=false")
+	}
+	if n == 0 {
+		r.Undecided("replication.Manager.setEngineReadOnly:callers", c.FnPos(set), "no caller found")
+	}
+}
